@@ -41,10 +41,15 @@ ASSUMPTIONS = [
     "unreachable elements, conflicting defaults for one struct field, struct/arity mismatch, dangling dm_control "
     "namespace) is counted as skipped, not as a violation",
     "formatting (whitespace, wrapping, comments, annotation text) is not compared",
+    "XMLschema.rst (generate_schema.py) is not among the outputs the statement names (XSD, C++ attribute/read/default "
+    "tables, element map, dm_control schema): it is still generated and compared, but every failure or mismatch of it "
+    "is only COUNTED as out_of_scope:schema_rst:<what> and never produces a violation",
 ]
 
 GENERATORS = ("xsd", "mjcf_table", "mjcf_map", "read_table", "default_table", "dmcontrol", "schema_rst")
 LIGHT = ("xsd", "mjcf_table", "mjcf_map")
+OUT_OF_SCOPE = ("schema_rst",)          # generators whose output the C42 statement does not name: counters only
+OUT_OF_SCOPE_DOC_TESTS = ("test_schema",)   # the repo's freshness test of doc/XMLschema.rst
 MODNAME = {"xsd": "generate_xsd", "mjcf_table": "generate_mjcf_table", "mjcf_map": "generate_mjcf_map",
            "read_table": "generate_read_table", "default_table": "generate_default_table",
            "dmcontrol": "generate_dmcontrol", "schema_rst": "generate_schema"}
@@ -1096,6 +1101,9 @@ def _evaluate(P, text, which, family, kinds, wd):
                                                                    or "unexpected cycle" in o["message"]):
                 P.count("skipped_documented_refusal:" + g)
                 continue
+            if g in OUT_OF_SCOPE:
+                P.count("out_of_scope:%s:generator-raised:%s" % (g, o["error"]))
+                continue
             P.violation("%s:generator-raised:%s" % (g, o["error"]), dict(detail, generator=g, message=o["message"]))
             P.case(key)
             continue
@@ -1103,6 +1111,9 @@ def _evaluate(P, text, which, family, kinds, wd):
 
         def V(sig, info, g=g):
             nviol[0] += 1
+            if g in OUT_OF_SCOPE:
+                P.count("out_of_scope:%s:%s" % (g, sig.split(":", 1)[-1]))
+                return
             if nviol[0] <= 3:
                 P.violation(sig, dict(detail, generator=g, info=str(info)[:1500]))
         try:
@@ -1110,6 +1121,8 @@ def _evaluate(P, text, which, family, kinds, wd):
         except RecursionError:
             P.count("skipped_oracle_recursion")
         P.count("outputs_checked:" + g)
+        if g in OUT_OF_SCOPE:
+            continue
         P.case(key, nontrivial=len(o) > 0, sample={"generator": g, "family": family, "perturbations": kinds,
                                                    "output_bytes": len(o)} if family != "real" else None)
     return outs
@@ -1176,7 +1189,9 @@ def worker(case):
                 for it, h in zip(items, json.loads(m.group(1))):
                     for g in it["which"]:
                         P.count("determinism_comparisons")
-                        if h.get(g) != it["hash"].get(g):
+                        if h.get(g) != it["hash"].get(g) and g in OUT_OF_SCOPE:
+                            P.count("out_of_scope:%s:output-depends-on-PYTHONHASHSEED" % g)
+                        elif h.get(g) != it["hash"].get(g):
                             P.violation("%s:output-depends-on-PYTHONHASHSEED" % g,
                                         {"schema": it["text"], "which": [g], "family": case["family"],
                                          "perturbations": it["kinds"], "hashseed": hs})
@@ -1208,6 +1223,9 @@ def doc_test_worker(case):
     P.count("repo_doc_tests_run", res.testsRun)
     P.count("repo_doc_tests_contract_evals", S["counts"]["post_rules"])
     for test, tb in res.errors + res.failures:
+        if test.id().split(".")[-1] in OUT_OF_SCOPE_DOC_TESTS:
+            P.count("out_of_scope:schema_rst:repo-doc-test:%s" % test.id().split(".")[-1])
+            continue
         P.violation("repo-doc-test:%s" % test.id().split(".")[-1], {"test": test.id(), "trace": tb[-1500:]})
     return P.result()
 
@@ -1233,7 +1251,7 @@ def run(ctx):
     if not ctx.counters.get("repo_doc_tests_run"):
         ctx.inconclusive("the repo doc_test did not run")
     for g in GENERATORS:
-        if not ctx.counters.get("outputs_checked:" + g):
+        if g not in OUT_OF_SCOPE and not ctx.counters.get("outputs_checked:" + g):
             ctx.inconclusive("no output of %s was checked" % g)
     if not ctx.counters.get("determinism_comparisons"):
         ctx.inconclusive("no cross-process determinism comparison ran")
